@@ -32,7 +32,7 @@ CAT = [
     (".word {L}", ["a"]), (".word {L}, {M}", ["a", "a"]), (".word {L}-{M}", ["f"]), (".word {L}+4", ["a"]),
     (".word 123", ["f"]), ("mov #{X}, r4", ["f", "f"]), ("mov {X}(r1), {L}", ["f", "f", "f"]),
     (".byte 1, 2", ["f"]), ("nop", ["f"]),
-    ("mov {L}-2(r1), r0", ["f", "a"]), ("clr @{L}-4(r2)", ["f", "a"]), ("mov {X}+{L}(r3), {M}", ["f", "a", "f"]),
+    ("mov {L}-2(r1), r0", ["f", "a"]), ("clr @{L}-4(r2)", ["f", "a"]), ("mov 6+{L}(r3), {M}", ["f", "a", "f"]),
 ]
 PIC = [c for c in CAT if "a" not in c[1]]
 
